@@ -442,5 +442,5 @@ func (W *vWorld) checkAll(tag string) {
 	vcheck(tag+"/inv-world", vpure(func() bool { return invWorld(W.w) }))
 	vcheck(tag+"/inv-relations", vpure(func() bool { return invRelations(W.w) }))
 	vcheck(tag+"/inv-zero", vpure(func() bool { return invZero(W) }))
-	vcheck(tag+"/unlocked", !W.w.IsLocked())
+	vcheck(tag+"/lock-state", W.w.IsLocked() == vLocked)
 }
